@@ -366,6 +366,11 @@ def run(res):
         n, d = RATES[si % len(RATES)]
         fc = FCS[(si // len(RATES) + si) % len(FCS)]
         sc = SCS[si % 2] if fc > 1 else 3600
+        if si % 5 == 1 and fc <= 60:
+            # one file per subdirectory: nearly every write opens a new subdirectory, which readers created
+            # (and used) earlier must find as well
+            sc = fc
+            res.count("scenarios:one file per subdirectory")
         epoch = si % 5 == 4
         if epoch:                                    # a file must hold indices 0..>100
             n, d, fc = [(200, 3, 60), (100, 1, 3), (1, 1, 3600), (200, 3, 3600)][(si // 5) % 4]
